@@ -83,6 +83,31 @@ func (ck *checker) familyCLI(maxN int) {
 					}
 				}
 			}
+			// an excluded directory in every local module (fourth round): every configuration form x content,
+			// unnamed and named modules; n <= 2 in the quick tier, n <= 3 in the thorough tier
+			if !(n == 3 && r.Quick()) {
+				for _, layout := range xLayouts {
+					for _, content := range xContents {
+						for _, k := range []Kind{KLocal, KNamed} {
+							if n == 3 && (content != "all" || k != KNamed) {
+								continue // n = 3 (thorough): named modules with all three excluded directories
+							}
+							for _, alone := range []bool{false, true} {
+								s := newSpec(g, uniformKinds(n, k), layout == "x2")
+								s.Layout, s.Excluded, s.Alone = layout, content, alone
+								if alone && k == KLocal {
+									// the CLI names an unnamed module by its path relative to the input, which is "."
+									// for a module that stands alone; the reference ids are relative to the workspace
+									continue
+								}
+								if ok, _ := s.valid(); ok {
+									specs = append(specs, s)
+								}
+							}
+						}
+					}
+				}
+			}
 			// plants: n <= 2 in the quick tier, n <= 3 in the thorough tier
 			if n == 3 && r.Quick() {
 				continue
